@@ -56,6 +56,7 @@ func TestVerifHistory(t *testing.T) {
 		got := []vhObs{}
 		errs := ""
 		for _, s := range c.Steps {
+			ret, hasRet := "", false
 			switch s.Act {
 			case "Load":
 				var err error
@@ -65,10 +66,10 @@ func TestVerifHistory(t *testing.T) {
 				}
 			case "Prev":
 				h.override(s.Arg)
-				h.previous()
+				ret, hasRet = h.previous(), true // what the terminal puts on the query line
 			case "Next":
 				h.override(s.Arg)
-				h.next()
+				ret, hasRet = h.next(), true
 			case "Submit":
 				if err := h.append(s.Arg); err != nil {
 					errs = err.Error()
@@ -83,6 +84,10 @@ func TestVerifHistory(t *testing.T) {
 				o.Entries = append(o.Entries, h.lines[:len(h.lines)-1]...)
 				o.Cursor = h.cursor + 1
 				o.Ret = h.current()
+				if hasRet && ret != o.Ret {
+					// the value handed to the terminal differs from the entry the cursor is on
+					o.Ret = "returned:" + ret + "|current:" + o.Ret
+				}
 			}
 			got = append(got, o)
 		}
